@@ -244,19 +244,14 @@ impl Cfg {
 
     pub fn build(&self, pats: &[Vec<u8>]) -> Result<S, String> {
         match self.imp {
-            Imp::LowNnfa => self
-                .nnfa_builder()
-                .build(pats)
+            // (every second low-level searcher is built by a clone of its builder)
+            Imp::LowNnfa => if pats.len() % 2 == 1 { self.nnfa_builder().clone().build(pats) } else { self.nnfa_builder().build(pats) }
                 .map(S::N)
                 .map_err(|e| e.to_string()),
-            Imp::LowCnfa => self
-                .cnfa_builder()
-                .build(pats)
+            Imp::LowCnfa => if pats.len() % 2 == 1 { self.cnfa_builder().clone().build(pats) } else { self.cnfa_builder().build(pats) }
                 .map(S::C)
                 .map_err(|e| e.to_string()),
-            Imp::LowDfa => self
-                .dfa_builder()
-                .build(pats)
+            Imp::LowDfa => if pats.len() % 2 == 1 { self.dfa_builder().clone().build(pats) } else { self.dfa_builder().build(pats) }
                 .map(S::D)
                 .map_err(|e| e.to_string()),
             _ => {
@@ -313,6 +308,13 @@ impl Cfg {
                     });
                 if let Some(d) = self.dense_depth {
                     b.dense_depth(d);
+                }
+                // (builders are values: every third configuration is built by a
+                // CLONE of its configured builder)
+                if h % 3 == 1 {
+                    let b2 = b.clone();
+                    drop(b);
+                    return b2.build(pats).map(S::Top).map_err(|e| e.to_string());
                 }
                 b.build(pats).map(S::Top).map_err(|e| e.to_string())
             }
@@ -493,11 +495,17 @@ fn via_setters<'h>(input: &Input<'h>, alt: bool) -> Input<'h> {
                     } else {
                         i.set_range(sp.start..sp.end);
                     }
-                } else {
+                } else if (sp.start / 2) % 2 == 0 {
                     // end first: the current start is 0 or 1, so start <= end + 1
                     // holds after the first call, and the wanted span is valid
                     i.set_end(sp.end);
                     i.set_start(sp.start);
+                } else {
+                    // start first (after widening), then the end - a done span
+                    // (start == end + 1) is then produced by `set_end`
+                    i.set_end(len);
+                    i.set_start(sp.start);
+                    i.set_end(sp.end);
                 }
             }
             1 => i.set_anchored(input.get_anchored()),
